@@ -219,9 +219,22 @@ def mergeStepOrd (ord : List Bytes → List Bytes) (b : Broker) (r : Map) : Merg
   let w := walk (fun k => has b.state k) { b with state := m.1 } (ord (m.2.map Prod.fst))
   { broker := w.1, delta := if m.2.isEmpty then none else some m.2, flags := w.2 }
 
-/-- the two walk orders the events of the cluster model can name -/
-def mergeStep (rev : Bool) (b : Broker) (r : Map) : MergeRes :=
-  mergeStepOrd (fun ks => if rev then ks.reverse else ks) b r
+/-- the walk orders the events of the cluster model can name (the order only matters once a
+flagged branch has desynchronised a counter; the correspondence run then takes the one that
+explains the implementation's answer) -/
+inductive WalkOrder where
+  | forward | reverse | addsFirst | removesFirst
+deriving Repr, DecidableEq
+
+def WalkOrder.apply (o : WalkOrder) (isAdd : Bytes → Bool) (ks : List Bytes) : List Bytes :=
+  match o with
+  | .forward => ks
+  | .reverse => ks.reverse
+  | .addsFirst => ks.filter isAdd ++ ks.filter (fun k => !isAdd k)
+  | .removesFirst => ks.filter (fun k => !isAdd k) ++ ks.filter isAdd
+
+def mergeStep (o : WalkOrder) (b : Broker) (r : Map) : MergeRes :=
+  mergeStepOrd (o.apply (fun k => has (Lww.merge b.state r).1 k && !has b.state k)) b r
 
 /-! ### the unrepaired `Swarm.merge` (defect D5), for the refutation witnesses -/
 
@@ -409,7 +422,7 @@ inductive Ev where
   /-- the head message of connection a→b reaches `b`; the returned delta is relayed to `relay`
   (a subset of b's other neighbours, chosen by the schedule); `keep` = the message is delivered
   again later (duplicate); `rev` = the order in which the delta (a Go map) is walked -/
-  | deliver (a b : PeerName) (relay : List PeerName) (keep : Bool) (rev : Bool)
+  | deliver (a b : PeerName) (relay : List PeerName) (keep : Bool) (rev : WalkOrder)
   /-- periodic `Gossip()` on link a→b -/
   | gossip (a b : PeerName)
   | linkDown (a b : PeerName)
